@@ -828,3 +828,256 @@ func ruleFormatParam(r *Run) {
 	}
 	r.Count("renderer_functions_handed_a_text_format", n)
 }
+
+// ---------------------------------------------------------------------------
+// R-READER-KEEPS-ALL (C03, C04): what a reader has collected into a list of the object it builds
+// stays in that list.  In every reader function a store to a slice-typed field of a model struct
+// is one of: an append to that same field, a fresh list (make / literal / nil), a list built by
+// another reader, or — when the new value is computed by a module function FROM the field's
+// current value (a post-processing pass such as merging or normalising what was read) — the
+// result of a function that keeps every element of its argument on every path (collects-all).
+// A pass that can drop or fuse elements changes what the file said: run boundaries, formatting of
+// the fused element, and with it what the next save writes.
+// ---------------------------------------------------------------------------
+
+func ruleReaderKeepsAll(r *Run) {
+	p := r.P
+	m := buildReaderModel(p)
+	n := 0
+	for _, f := range m.Funcs {
+		idx := 0
+		allInstrs(f, func(in ssa.Instruction) {
+			st, ok := in.(*ssa.Store)
+			if !ok {
+				return
+			}
+			fv, _ := fieldOfAddr(st.Addr)
+			if fv == nil || fv.Pkg() == nil || !strings.HasPrefix(fv.Pkg().Path(), "github.com/zerx-lab/wordZero/pkg/") {
+				return
+			}
+			if _, isSlice := fv.Type().Underlying().(*types.Slice); !isSlice {
+				return
+			}
+			n++
+			call, ok := stripConv(st.Val).(*ssa.Call)
+			if !ok {
+				return
+			}
+			if _, isB := call.Call.Value.(*ssa.Builtin); isB {
+				return
+			}
+			cal := staticCallee(call)
+			if cal == nil || !p.inModule(cal) || len(cal.Blocks) == 0 || m.IsReader[cal] {
+				return
+			}
+			// which argument is the field's current value?
+			for ai, a := range call.Call.Args {
+				ld, ok := a.(*ssa.UnOp)
+				if !ok || ld.Op != token.MUL {
+					continue
+				}
+				if f2, _ := fieldOfAddr(ld.X); f2 != fv || pathString(ld.X) != pathString(st.Addr) {
+					continue
+				}
+				if ai >= len(cal.Params) {
+					continue
+				}
+				idx++
+				c := &collector{p: p, paramComplete: true}
+				okAll, why := true, ""
+				for _, ret := range returnsOf(cal) {
+					if len(ret.Results) == 0 {
+						continue
+					}
+					if o, w := c.containsAll(ret.Results[0]); !o {
+						okAll, why = false, w
+					}
+				}
+				r.Check("reader-keeps-all", fmt.Sprintf("%s:%s.%s#%d", shortName(f), ownerNameOf(p, fv), fv.Name(), idx), st.Pos(), okAll,
+					fmt.Sprintf("%s replaces the list %s it has read by the result of %s: %s", shortName(f), fv.Name(), shortName(cal),
+						map[bool]string{true: "every element is kept", false: "not every element of the list is kept (" + why + ") — elements of the file are dropped or fused while reading, so save-then-open does not return what was saved"}[okAll]))
+			}
+		})
+	}
+	r.Min("reader_list_stores", n, 10)
+}
+
+func ownerNameOf(p *Program, fv *types.Var) string {
+	if o := fieldOwner(p, fv); o != nil {
+		return o.Obj().Name()
+	}
+	return "?"
+}
+
+// ---------------------------------------------------------------------------
+// R-LOOKUP-GUARDED (C13): where the library looks a style id up in the document's registry and
+// tests the answer, the id may be written as a style reference only where the style was found.
+// On the not-found edge of `s := registry.GetStyle(id); if s == nil` no store of that same id
+// into a *Style.Val reference field (w:pStyle, w:rStyle, w:tblStyle) is reachable: the registry
+// can shrink (RemoveStyle), and the styles part is generated from it, so the reference would name
+// a style the saved package does not define.
+// ---------------------------------------------------------------------------
+
+func ruleLookupGuarded(r *Run) {
+	p := r.P
+	n := 0
+	isRefField := func(fv *types.Var) bool {
+		if fv == nil || fv.Name() != "Val" {
+			return false
+		}
+		o := fieldOwner(p, fv)
+		if o == nil {
+			return false
+		}
+		switch o.Obj().Name() {
+		case "ParagraphStyle", "RunStyle", "TableStyle":
+			return true
+		}
+		return false
+	}
+	for _, fn := range p.ModFuncs() {
+		if fn.Pkg == nil || (fn.Pkg.Pkg.Path() != pkgDoc && fn.Pkg.Pkg.Path() != pkgMd) {
+			continue
+		}
+		allInstrs(fn, func(in ssa.Instruction) {
+			c, ok := in.(*ssa.Call)
+			if !ok {
+				return
+			}
+			cn := calleeName(c)
+			if !strings.Contains(cn, "StyleManager).GetStyle") || len(c.Call.Args) < 2 || c.Referrers() == nil {
+				return
+			}
+			id := c.Call.Args[1]
+			for _, u := range *c.Referrers() {
+				cmp, ok := u.(*ssa.BinOp)
+				if !ok || (cmp.Op != token.EQL && cmp.Op != token.NEQ) || !(isNilConst(cmp.X) || isNilConst(cmp.Y)) || cmp.Referrers() == nil {
+					continue
+				}
+				for _, u2 := range *cmp.Referrers() {
+					iff, ok := u2.(*ssa.If)
+					if !ok {
+						continue
+					}
+					nilSucc := iff.Block().Succs[0]
+					if cmp.Op == token.NEQ {
+						nilSucc = iff.Block().Succs[1]
+					}
+					n++
+					var bad *ssa.Store
+					for b := range reachableBlocks(nilSucc, nil) {
+						// a block the found-edge dominates is not "reached without the style"
+						for _, in2 := range b.Instrs {
+							st, ok := in2.(*ssa.Store)
+							if !ok {
+								continue
+							}
+							fv, _ := fieldOfAddr(st.Addr)
+							if !isRefField(fv) {
+								continue
+							}
+							if stripConv(st.Val) == stripConv(id) || (symOf(st.Val).String() == symOf(id).String() && len(symOf(id)) > 0 && !(len(symOf(id)) == 1 && symOf(id)[0].Sym != nil && st.Val != id)) {
+								bad = st
+							}
+						}
+					}
+					// the found-successor may lead to the same store; what matters is that the not-found one does
+					pos := c.Pos()
+					if bad != nil {
+						pos = bad.Pos()
+					}
+					r.Check("lookup-guarded", shortName(topLevel(fn)), pos, bad == nil,
+						fmt.Sprintf("%s looks a style id up in the registry and tests the result: %s", shortName(topLevel(fn)),
+							map[bool]string{true: "the id is referenced only where the style was found", false: "the id is still written as a style reference when the style was NOT found — after RemoveStyle the saved body names a style that word/styles.xml (generated from the registry) does not define"}[bad == nil]))
+				}
+			}
+		})
+	}
+	r.Min("tested_registry_lookups", n, 1)
+}
+
+// ---------------------------------------------------------------------------
+// R-TOC-ENTRY-PER-HEADING (C15): the table of contents lists EXACTLY the headings collected.  A
+// loop over the collected []TOCEntry whose body adds an entry to the TOC content control (a call
+// that reaches an append to SDTContent.Elements) must do so on every iteration: an iteration that
+// can return to the loop header without the call leaves a heading out (a de-duplication by anchor
+// or text, a level filter applied a second time, …).
+// ---------------------------------------------------------------------------
+
+func ruleTOCEntryPerHeading(r *Run) {
+	p := r.P
+	n := 0
+	appendsToSDT := map[*ssa.Function]bool{}
+	for _, fn := range p.ModFuncs() {
+		allInstrs(fn, func(in ssa.Instruction) {
+			st, ok := in.(*ssa.Store)
+			if !ok {
+				return
+			}
+			if fv, _ := fieldOfAddr(st.Addr); fieldIs(p, fv, pkgDoc, "SDTContent", "Elements") {
+				appendsToSDT[topLevel(fn)] = true
+			}
+		})
+	}
+	reachesAppend := func(fn *ssa.Function) bool {
+		if appendsToSDT[fn] {
+			return true
+		}
+		for g := range p.staticReach(fn) {
+			if appendsToSDT[g] {
+				return true
+			}
+		}
+		return false
+	}
+	for _, fn := range p.ModFuncs() {
+		if fn.Pkg == nil || fn.Pkg.Pkg.Path() != pkgDoc {
+			continue
+		}
+		for _, l := range naturalLoops(fn) {
+			ri := rangeOf(l)
+			if ri == nil {
+				continue
+			}
+			st, ok := ri.X.Type().Underlying().(*types.Slice)
+			if !ok || !typeIs(st.Elem(), pkgDoc, "TOCEntry") {
+				continue
+			}
+			cut := map[*ssa.BasicBlock]bool{}
+			var first *ssa.Call
+			for b := range l.Body {
+				for _, in := range b.Instrs {
+					c, ok := in.(*ssa.Call)
+					if !ok {
+						continue
+					}
+					cal := staticCallee(c)
+					if cal == nil || !p.inModule(cal) || !reachesAppend(cal) {
+						continue
+					}
+					cut[b] = true
+					if first == nil || c.Pos() < first.Pos() {
+						first = c
+					}
+				}
+			}
+			if len(cut) == 0 {
+				continue
+			}
+			n++
+			iff, ok := l.Header.Instrs[len(l.Header.Instrs)-1].(*ssa.If)
+			if !ok {
+				continue
+			}
+			body := iff.Block().Succs[0]
+			if !l.Body[body] {
+				body = iff.Block().Succs[1]
+			}
+			okAll := cut[body] || !reachableBlocks(body, cut)[l.Header]
+			r.Check("toc-entry-per-heading", shortName(topLevel(fn)), first.Pos(), okAll,
+				fmt.Sprintf("%s adds the collected headings to the table of contents in a loop: %s", shortName(topLevel(fn)),
+					map[bool]string{true: "every iteration adds its entry", false: "some iterations skip the entry — a collected heading (one that ListHeadings still reports) is missing from the generated table of contents"}[okAll]))
+		}
+	}
+	r.Min("toc_entry_loops", n, 1)
+}
